@@ -357,7 +357,33 @@ fn agreement_hover_patterns(case: &mut Case, rng: &mut Rng) {
     }
     src.push_str("fn main() -> unit {\n    let ");
     probes.push((src.len(), "Px", "px".into()));
-    src.push_str("px: Px = Px { r: 1, g: true, name: \"n\" };\n    let _ = pick0(Col::Gray(true), px, (1, (true, \"s\")));\n    ()\n}\n");
+    src.push_str("px: Px = Px { r: 1, g: true, name: \"n\" };\n");
+    // destructuring lets, annotated and not: each inner binder has its component's type, not the annotation's
+    // (added after a seeded change that answered the whole annotation for binders of an annotated destructuring let)
+    src.push_str("    let (");
+    binder(&mut src, &mut probes, "int32");
+    src.push_str(", ");
+    binder(&mut src, &mut probes, "string");
+    src.push_str("): (int32, string) = (1, \"s\");\n    let Px { r: ");
+    binder(&mut src, &mut probes, "int32");
+    src.push_str(", g: ");
+    binder(&mut src, &mut probes, "bool");
+    src.push_str(", name: ");
+    binder(&mut src, &mut probes, "string");
+    src.push_str(" }: Px = Px { r: 2, g: false, name: \"m\" };\n    let ((");
+    binder(&mut src, &mut probes, "int32");
+    src.push_str(", ");
+    binder(&mut src, &mut probes, "bool");
+    src.push_str("), ");
+    binder(&mut src, &mut probes, "string");
+    src.push_str("): ((int32, bool), string) = ((1, true), \"s\");\n    let (");
+    binder(&mut src, &mut probes, "int32");
+    src.push_str(", (");
+    binder(&mut src, &mut probes, "bool");
+    src.push_str(", ");
+    binder(&mut src, &mut probes, "string");
+    src.push_str(")) = (3, (true, \"u\"));\n");
+    src.push_str("    let _ = pick0(Col::Gray(true), px, (1, (true, \"s\")));\n    ()\n}\n");
     runner::note_input(&src);
     match runner::guard(|| typecheck_errors(&src)) {
         Ok(Ok(errs)) if errs.is_empty() => {}
